@@ -128,9 +128,12 @@ Available(h, get, st) ==
         ELSE IF empty[h] THEN "ok_empty"                             \* link the height to the empty EDS
         ELSE IF stored[h] # "none" THEN "ok_stored"                  \* shortcut
         ELSE IF get = "cancelled" THEN "cancelled"                   \* context.Canceled passed through
-        ELSE IF get \in {"notfound", "deadline", "byz_notfound"} THEN "not_available"
-             \* `Is(ErrNotFound) || Is(DeadlineExceeded) && !As(byzantine)`: a byzantine error joined with
-             \* not-found is mapped to "not available" as well (candidate #19, outside the statement)
+        ELSE IF get \in {"notfound", "deadline"} THEN "not_available"
+        ELSE IF get = "byz_notfound" THEN "not_available_or_byzantine"
+             \* `Is(ErrNotFound) || Is(DeadlineExceeded) && !As(byzantine)`: by precedence a byzantine error
+             \* joined with not-found is reported as "not available" (candidate #19).  Which of the two
+             \* errors is reported is outside the property's statement: the model leaves it open and the
+             \* binding accepts either; nothing is stored in both cases.
         ELSE IF get \in {"byzantine", "byz_deadline"} THEN "byzantine"
         ELSE IF get = "other" THEN "other_error"
         ELSE IF st = "fail" THEN "store_error"
@@ -182,7 +185,7 @@ StoredMatchesHeader ==
 
 \* a failed ingest leaves nothing stored and is reported as such
 Failures == {"fetch_error", "sync_error", "store_error", "historic", "outside_window", "cancelled",
-             "not_available", "byzantine", "other_error"}
+             "not_available", "not_available_or_byzantine", "byzantine", "other_error"}
 FailedLeavesNothing ==
   act.res \in Failures => (act.pre = "none" => stored[act.h] = "none") /\ (stored[act.h] = act.pre)
 
